@@ -309,6 +309,7 @@ type CLIReqCase struct {
 	Plugins   []ReqConfig             `json:"plugins"`
 	Effective []ReqConfig             `json:"effective_plugins,omitempty"` // after the command-line override, when there is one
 	RunKind   string                  `json:"run_kind"`
+	Input     string                  `json:"input_kind,omitempty"` // "" = the module directory; "image" = a binary image written by `buf build -o`
 	SharedOut bool                    `json:"shared_out"`
 	Template  string                  `json:"template"`
 	Args      []string                `json:"args"`
@@ -366,14 +367,49 @@ func runCLIRequests(r *evid.Run, scratch, bin string, layoutList [][]string) {
 		gi     int
 		g      enum.Digraph
 		layout []string
+		// round 3: import kinds per edge and the files importing an unused well-known type; variant items run a
+		// shorter list of runs, half of them with a binary image as the input
+		kinds   []int
+		empty   int
+		variant bool
 	}
 	var items []item
 	for gi, g := range dags {
 		for _, l := range layoutList {
-			items = append(items, item{gi, g, l})
+			items = append(items, item{gi: gi, g: g, layout: l})
 		}
 	}
-	r.Set("C_request_space", map[string]any{"dags_n3": len(dags), "layouts": len(layoutList), "runs_per_workspace": 15})
+	nplain := len(items)
+	// round 3: every assignment {referenced, unused} to the imports of every DAG with at least one unused import, and
+	// the plain DAGs with an unused well-known-type import; quick: one layout per variant (rotating), thorough: every
+	// third layout
+	nvariants := 0
+	for gi, g := range dags {
+		var vs []item
+		for _, ka := range kindAssignments(len(g.Edges()), []int{kindUsed, kindUnused}) {
+			if !plainKinds(ka) {
+				vs = append(vs, item{gi: gi, g: g, kinds: ka, variant: true})
+			}
+		}
+		for _, em := range []int{1, 6} {
+			vs = append(vs, item{gi: gi, g: g, empty: em, variant: true})
+		}
+		for _, v := range vs {
+			if r.Quick() {
+				v.layout = layoutList[nvariants%len(layoutList)]
+				items = append(items, v)
+			} else {
+				for li := nvariants % 3; li < len(layoutList); li += 3 {
+					w := v
+					w.layout = layoutList[li]
+					items = append(items, w)
+				}
+			}
+			nvariants++
+		}
+	}
+	r.Set("C_request_space", map[string]any{"dags_n3": len(dags), "layouts": len(layoutList), "runs_per_workspace": 15,
+		"workspaces": nplain, "unused_import_variants": nvariants, "unused_import_workspaces": len(items) - nplain, "runs_per_unused_import_workspace": 4})
 	total := &ReqStats{}
 	var runs, failedRuns, grouped int
 	runsByKind := map[string]int{}
@@ -381,11 +417,22 @@ func runCLIRequests(r *evid.Run, scratch, bin string, layoutList [][]string) {
 	lock <- struct{}{}
 	r.ParallelFor(len(items), 0, func(ix int) {
 		it := items[ix]
-		c := &Corpus{N: 3, Dirs: it.layout, Wkt: make([]bool, 3)}
+		c := &Corpus{N: 3, Dirs: it.layout, Wkt: make([]bool, 3), Kinds: it.kinds}
 		for _, e := range it.g.Edges() {
 			c.Edges = append(c.Edges, [2]int{e[0], e[1]})
 		}
 		wkt := (it.gi*7 + ix) % 8
+		variant := ""
+		if it.variant {
+			wkt = 0
+			variant = fmt.Sprintf("|k%v|e%d", it.kinds, it.empty)
+			if it.empty != 0 {
+				c.Empty = make([]bool, 3)
+				for i := 0; i < 3; i++ {
+					c.Empty[i] = it.empty&(1<<i) != 0
+				}
+			}
+		}
 		for i := 0; i < 3; i++ {
 			c.Wkt[i] = wkt&(1<<i) != 0
 		}
@@ -407,6 +454,7 @@ func runCLIRequests(r *evid.Run, scratch, bin string, layoutList [][]string) {
 		st := &ReqStats{}
 		localRuns, localFailed, localGrouped := 0, 0, 0
 		localRunsByKind := map[string]int{}
+		input, inputKind := ws, "" // what `buf generate` is pointed at
 		// one executes one `buf generate` run: plugin k of the template is cfgs[k]; override are extra command-line
 		// flags (--include-imports / --include-wkt), which replace the per-plugin settings of every plugin.
 		one := func(run int, kind string, tmask int, cfgs []ReqConfig, shared bool, override ...string) {
@@ -452,11 +500,15 @@ func runCLIRequests(r *evid.Run, scratch, bin string, layoutList [][]string) {
 			tmplText := renderTemplate(bin, plugins)
 			tmpl := filepath.Join(dir, fmt.Sprintf("buf.gen.%d.yaml", run))
 			_ = os.WriteFile(tmpl, []byte(tmplText), 0o644)
-			args := []string{"generate", ws, "--template", tmpl, "-o", base}
+			args := []string{"generate", input, "--template", tmpl, "-o", base}
 			args = append(args, override...)
 			if tmask != 7 {
 				for _, p := range bufx.SortedKeys(m.Targets) {
-					args = append(args, "--path", filepath.Join(ws, p))
+					if inputKind == "image" {
+						args = append(args, "--path", p) // paths of an image input are relative to the image root
+					} else {
+						args = append(args, "--path", filepath.Join(ws, p))
+					}
 				}
 			}
 			res := bufx.RunCLI(ctx, map[string]string{}, "", args...)
@@ -468,7 +520,7 @@ func runCLIRequests(r *evid.Run, scratch, bin string, layoutList [][]string) {
 				return
 			}
 			mk := func() *CLIReqCase {
-				cc := &CLIReqCase{Half: "C", Corpus: c, Sources: sources, Targets: bufx.SortedKeys(m.Targets), Plugins: cfgs, RunKind: kind, SharedOut: shared,
+				cc := &CLIReqCase{Half: "C", Corpus: c, Sources: sources, Targets: bufx.SortedKeys(m.Targets), Plugins: cfgs, RunKind: kind, Input: inputKind, SharedOut: shared,
 					Template: strings.ReplaceAll(tmplText, dir, "<dir>"), Args: args, ExitCode: res.ExitCode, Stderr: strings.ReplaceAll(res.Stderr, dir, "<dir>"),
 					Requests: map[string][]ReqSummary{}, Disk: listFiles(base)}
 				for id, reqs := range recorded {
@@ -507,7 +559,9 @@ func runCLIRequests(r *evid.Run, scratch, bin string, layoutList [][]string) {
 					}
 				}
 				if len(m.Imports)+len(m.Wkts) > 0 {
-					if kind == "pair" {
+					if it.variant {
+						r.Distinct(fmt.Sprintf("C|%d|%v|%d|%d|%s|%s|%d/%d%s|%s", it.gi, it.layout, wkt, tmask, cfg, kind, k, len(cfgs), variant, inputKind))
+					} else if kind == "pair" {
 						r.Distinct(fmt.Sprintf("C|%d|%v|%d|%d|%s", it.gi, it.layout, wkt, tmask, cfg))
 					} else {
 						r.Distinct(fmt.Sprintf("C|%d|%v|%d|%d|%s|%s|%d/%d|%v", it.gi, it.layout, wkt, tmask, cfg, kind, k, len(cfgs), override))
@@ -533,6 +587,48 @@ func runCLIRequests(r *evid.Run, scratch, bin string, layoutList [][]string) {
 		sub := (it.gi+ix)%6 + 1
 		// buf.gen.yaml rejects include_wkt without include_imports, so 3 settings per strategy: 3 runs cover all 6
 		flags := [][2]bool{{false, false}, {true, false}, {true, true}}
+		finish := func() {
+			<-lock
+			total.add(st)
+			runs += localRuns
+			failedRuns += localFailed
+			grouped += localGrouped
+			for k, v := range localRunsByKind {
+				runsByKind[k] += v
+			}
+			lock <- struct{}{}
+			_ = os.RemoveAll(dir)
+		}
+		if it.variant {
+			// round 3: a module with unused imports; the module directory and the binary image built from it (there
+			// the unused dependency indexes travel in the image's buf extension) as inputs, all targets and a proper
+			// subset, a (directory, all) pair and a group of three directory plugins
+			img := filepath.Join(dir, "image.binpb")
+			if res := bufx.RunCLI(ctx, map[string]string{}, "", "build", ws, "-o", img); res.ExitCode != 0 {
+				r.Incomplete("harness: buf build of a module with unused imports failed: " + strings.ReplaceAll(res.Stderr, dir, "<dir>"))
+				finish()
+				return
+			}
+			f := flags[ix%3]
+			d := ReqConfig{Strategy: "directory", IncludeImports: f[0], IncludeWKT: f[1]}
+			a := ReqConfig{Strategy: "all", IncludeImports: flags[(ix+1)%3][0], IncludeWKT: flags[(ix+1)%3][1]}
+			three := []ReqConfig{}
+			for _, fi := range [][3]int{{0, 1, 2}, {0, 2, 1}, {1, 0, 2}, {1, 2, 0}, {2, 0, 1}, {2, 1, 0}}[ix%6] {
+				three = append(three, ReqConfig{Strategy: "directory", IncludeImports: flags[fi][0], IncludeWKT: flags[fi][1]})
+			}
+			for _, in := range []string{"", "image"} {
+				input, inputKind = ws, in
+				if in == "image" {
+					input = img
+				}
+				one(run, "unused-pair", []int{7, sub}[(ix+run/2)%2], []ReqConfig{d, a}, ix%2 == 0)
+				run++
+				one(run, "unused-group-directory", []int{sub, 7}[(ix+run/2)%2], three, ix%2 == 1)
+				run++
+			}
+			finish()
+			return
+		}
 		for _, tmask := range []int{7, sub} {
 			for k := 0; k < 3; k++ {
 				a := ReqConfig{Strategy: "all", IncludeImports: flags[k][0], IncludeWKT: flags[k][1]}
@@ -596,36 +692,31 @@ func runCLIRequests(r *evid.Run, scratch, bin string, layoutList [][]string) {
 		one(run, "group-override", sub, group([]string{"all", "directory"}[(ix/6)%2], perm[(ix+4)%6]), ix%2 == 0, overrides[ix%6]...)
 		run++
 		one(run, "group-override", 7, group([]string{"directory", "all"}[(ix/6)%2], perm[(ix+5)%6]), ix%2 == 1, overrides[(ix+3)%6]...)
-		<-lock
-		total.add(st)
-		runs += localRuns
-		failedRuns += localFailed
-		grouped += localGrouped
-		for k, v := range localRunsByKind {
-			runsByKind[k] += v
-		}
-		lock <- struct{}{}
-		_ = os.RemoveAll(dir)
+		finish()
 	})
 	r.Set("C_request_runs", map[string]int{"runs": runs, "failed_runs_with_type_filter": failedRuns})
 	r.Set("C_request_successful_runs_by_kind", runsByKind)
 	r.Set("C_request_plugins_grouped_with_an_earlier_plugin_of_different_settings", grouped)
 	r.Set("C_request_clause_counts", map[string]int{
-		"targets_generated_exactly_once":               total.TargetsOnce,
-		"imports_generated_exactly_once":               total.ImportsOnce,
-		"wkt_generated_exactly_once":                   total.WktOnce,
-		"imports_present_but_withheld":                 total.ImportsWithheld,
-		"wkt_present_but_withheld":                     total.WktWithheld,
-		"imports_shared_by_several_requests_generated": total.SharedImportAcrossRequests,
-		"targets_imported_by_another_directory":        total.TargetImportedFromOtherDir,
-		"retention_source_file_descriptors_complete":   total.RetSFD,
-		"retention_generated_proto_file_stripped":      total.RetGenStripped,
-		"retention_import_proto_file_untouched":        total.RetImportKept,
-		"filtered_sets_dropping_a_target":              total.FilterDropped,
+		"targets_generated_exactly_once":                               total.TargetsOnce,
+		"imports_generated_exactly_once":                               total.ImportsOnce,
+		"wkt_generated_exactly_once":                                   total.WktOnce,
+		"imports_present_but_withheld":                                 total.ImportsWithheld,
+		"wkt_present_but_withheld":                                     total.WktWithheld,
+		"imports_shared_by_several_requests_generated":                 total.SharedImportAcrossRequests,
+		"targets_imported_by_another_directory":                        total.TargetImportedFromOtherDir,
+		"retention_source_file_descriptors_complete":                   total.RetSFD,
+		"retention_generated_proto_file_stripped":                      total.RetGenStripped,
+		"retention_import_proto_file_untouched":                        total.RetImportKept,
+		"filtered_sets_dropping_a_target":                              total.FilterDropped,
+		"dependency_edges_checked_unused_import":                       total.UnusedEdges,
+		"unused_import_of_a_non_target_checked_in_a_multi_request_set": total.UnusedEdgesToNonTargetMulti,
 	})
 	if !r.Expired() {
 		for name, n := range map[string]int{"imports generated once": total.ImportsOnce, "wkt generated once": total.WktOnce,
-			"shared import across requests": total.SharedImportAcrossRequests, "retention stripped": total.RetGenStripped,
+			"unused import edges": total.UnusedEdges, "unused import of a non-target in a multi-request set": total.UnusedEdgesToNonTargetMulti,
+			"runs on a module with unused imports": runsByKind["unused-pair"] + runsByKind["unused-group-directory"],
+			"shared import across requests":        total.SharedImportAcrossRequests, "retention stripped": total.RetGenStripped,
 			"plugin grouped with an earlier plugin of different settings": grouped, "group runs with a command-line override": runsByKind["group-override"],
 			"group runs held together by a type filter": runsByKind["group-filtered"], "interleaved group runs": runsByKind["group-interleaved"]} {
 			if n == 0 {
